@@ -169,7 +169,11 @@ pub fn random_history(rng: &mut StdRng, max_ops: usize, allow_errors: bool) -> (
         letters.push(p[rng.gen_range(0..p.len())]);
     }
     let nsets = rng.gen_range(1..=2);
-    let sets: Vec<Vec<String>> = (0..nsets).map(|_| shaped_set(rng, &letters, 4, 3)).collect();
+    let mut sets: Vec<Vec<String>> = (0..nsets).map(|_| shaped_set(rng, &letters, 4, 3)).collect();
+    if rng.gen_bool(0.03) {
+        // a list that consists of the empty test case only is still a list of test cases (result ^$)
+        sets[0] = vec![String::new()];
+    }
     let mut ops = vec![];
     let mut live: Vec<usize> = vec![];
     let mut next_obj = 1;
